@@ -5,7 +5,7 @@
    below: the reference's defining laws on a concrete sequence (a sanity test of the statement). *)
 From Coq Require Import List NArith ZArith Bool.
 Import ListNotations.
-From STFS Require Import Str Db Tape Index Ops Fs File.
+From STFS Require Import Str Db Tape Index Ops Fs File C14Refine.
 Open Scope N_scope.
 
 Definition rw : flags := {| fl_read := true; fl_write := true; fl_append := false; fl_trunc := false |}.
@@ -18,4 +18,33 @@ Example C14_spec_demo :
   first_bad 0 rs rs' = None /\ ceqb (h_close h) (sp_data s) = true /\ clen (sp_data s) = 20.
 Proof. vm_compute. repeat split; reflexivity. Qed.
 
-Print Assumptions C14_spec_demo.
+(* THE THEOREM: inside the envelope (no positioned I/O, no O_APPEND, seeks in read mode not beyond the
+   end) every handle call returns what the byte-array reference returns, for every initial content,
+   flag combination and call sequence, and the content read after Close is the reference's data. *)
+Theorem C14_handle_refines_bytearray : forall existing fl ops,
+  fl_append fl = false ->
+  ops_ok (spec_open existing fl) ops = true ->
+  let '(h, rs) := hrun (h_open existing fl) ops in
+  let '(s, rs') := spec_run (spec_open existing fl) ops in
+  results_agree rs rs' /\ ceqb (h_close h) (sp_data s) = true.
+Proof. exact C14_refines. Qed.
+
+(* the same under the wider envelope: any seek once the handle is in write mode; refused calls anywhere *)
+Theorem C14_handle_refines_bytearray_wide : forall existing fl ops,
+  fl_append fl = false ->
+  ops_ok' (wm_open existing fl) (spec_open existing fl) ops = true ->
+  let '(h, rs) := hrun (h_open existing fl) ops in
+  let '(s, rs') := spec_run (spec_open existing fl) ops in
+  results_agree rs rs' /\ ceqb (h_close h) (sp_data s) = true.
+Proof. exact C14_refines_wide. Qed.
+
+(* each envelope restriction is necessary: the known findings as refutation witnesses *)
+Theorem C14_readat_moves_cursor_refuted : agree_b ten fl_ro [HReadAt 2 3; HRead 1] = false.
+Proof. exact needs_no_readat. Qed.
+Theorem C14_seek_beyond_end_refuted : agree_b ten fl_ro [HSeek 20 0; HSeek 0 1] = false.
+Proof. exact needs_seek_bound. Qed.
+Theorem C14_append_refuted : agree_b ten fl_rwa [HWrite [(7, 0, 2)]; HSeek 0 0; HWrite [(8, 0, 1)]] = false.
+Proof. exact needs_no_append. Qed.
+
+Print Assumptions C14_handle_refines_bytearray.
+Print Assumptions C14_handle_refines_bytearray_wide.
